@@ -1,3 +1,5 @@
+#[cfg(feature = "verif_hooks")]
+use crate::verif_sync::shadow_std as std;
 use std::sync::{Once, Mutex};
 use paste::paste;
 
